@@ -3,6 +3,7 @@ package main
 import (
 	"fmt"
 	"github.com/preslavrachev/gomjml/mjml"
+	"html"
 	"regexp"
 	"sort"
 	"strconv"
@@ -223,6 +224,21 @@ func runC11(res *Result, tier string, seed int64, replay string) {
 				}
 			}
 		}
+		// the same with Google-style addresses: the declared family's address starts like the built-in one's
+		// (family=Roboto+Slab vs family=Roboto:300,…) — a different family all the same
+		for bi, b := range []string{"Roboto", "Ubuntu", "Open Sans", "Montserrat", "Lato"} {
+			for di, ext := range []string{" Slab", " Mono", " Condensed", " Alternates", "2"} {
+				decl := b + ext
+				href := "https://fonts.googleapis.com/css?family=" + strings.ReplaceAll(decl, " ", "+") + []string{"", ":400,700", ":300,400,500,700"}[di%3]
+				for ui, body := range []string{
+					`<mj-text font-family="` + b + `, sans-serif">t</mj-text><mj-button href="u" font-family="Lato, Arial">b</mj-button>`,
+					`<mj-text font-family="` + decl + `, serif">t</mj-text><mj-text font-family="` + b + `">u</mj-text><mj-button href="u" font-family="Montserrat">b</mj-button>`,
+					`<mj-text font-family="` + decl + `">only the declared one</mj-text>`,
+				} {
+					docs = append(docs, doc{fmt.Sprintf("mj-font-google/%d/%d/%d", bi, di, ui), `<mjml><mj-head><mj-font name="` + decl + `" href="` + href + `"/></mj-head><mj-body><mj-section><mj-column>` + body + `</mj-column></mj-section></mj-body></mjml>`})
+				}
+			}
+		}
 		// an mj-font that restates a built-in font's own URL, with other built-in fonts used before and after it in the body (the
 		// default Ubuntu stack of text / button, a font on a navbar link only): every one of them must still be imported
 		for bi, b := range []string{"Roboto", "Lato", "Open Sans", "Montserrat"} {
@@ -377,6 +393,24 @@ func runC11(res *Result, tier string, seed int64, replay string) {
 				res.Violate(Violation{Sig: tagSig("font-referenced-not-imported"), Kind: "input", What: "a body font-family resolves to " + u + " which the head does not import", Input: in})
 			}
 		}
+		// a family declared with mj-font and named by a body font-family is imported from the declared address
+		for _, m := range mjFontDeclRe.FindAllStringSubmatch(o.d.src, -1) {
+			name, href := m[1], html.UnescapeString(m[2])
+			used := false
+			for _, stack := range f.families {
+				for _, fam := range strings.Split(stack, ",") {
+					if strings.EqualFold(strings.Trim(strings.TrimSpace(fam), `'"`), name) {
+						used = true
+					}
+				}
+			}
+			if used && !imported[href] {
+				res.Violate(Violation{Sig: tagSig("declared-font-referenced-not-imported"), Kind: "input", What: "the body names the family " + name + " declared with mj-font, but the head does not import " + href, Input: in})
+			}
+			if used {
+				referenced[href] = true // a declaration may restate a built-in address
+			}
+		}
 		for _, u := range mapped {
 			if imported[u] && !referenced[u] {
 				res.Violate(Violation{Sig: tagSig("builtin-font-imported-unused"), Kind: "input", What: "the head imports " + u + " but no body font-family resolves to it", Input: in})
@@ -384,6 +418,8 @@ func runC11(res *Result, tier string, seed int64, replay string) {
 		}
 	})
 }
+
+var mjFontDeclRe = regexp.MustCompile(`<mj-font name="([^"]*)" href="([^"]*)"`)
 
 // bodySrc: the part of the source from <mj-body on (head defaults such as <mj-attributes><mj-image …/> are not components)
 func bodySrc(src string) string {
